@@ -32,6 +32,9 @@ type Options struct {
 	// before Send returns to the library (point "car.sent.<dir>.<kind>"): a
 	// driver can hold the sender there, as a slow transport write would.
 	Yield func(point string, sid int64)
+	// ServerCtx, if set, decorates the network server's stream context (as
+	// server interceptors do).
+	ServerCtx func(context.Context) context.Context
 	// ServerHeader is what the network server end answers as response header
 	// when it is played raw (nil = none).
 	PeerAddr string
@@ -95,6 +98,9 @@ func New(ctx context.Context, o Options) *Carrier {
 		addr = "10.0.0.1:1234"
 	}
 	sctx = peer.NewContext(sctx, &peer.Peer{Addr: fakeAddr(addr)})
+	if o.ServerCtx != nil {
+		sctx = o.ServerCtx(sctx)
+	}
 	c.srvCtx, c.srvCancel = context.WithCancel(sctx)
 	c.stopAfter = context.AfterFunc(ctx, func() {
 		c.mu.Lock()
